@@ -332,11 +332,14 @@ SLOTS = Weighted(JOBS)
 
 
 def sh(cmd, cwd, timeout, log=None):
-    """Run under ulimit -v + timeout; returns (rc, output, seconds). rc = -9 on timeout."""
+    """Run under ulimit -v + timeout; returns (rc, output, seconds). rc = -9 on timeout.
+    With `log`, output streams into that file while the command runs (so a long solver run can be watched)."""
     t0 = time.time()
     full = 'ulimit -v %d; exec %s' % (MEM_KB, cmd)
+    sink = open(log, 'w') if log else None
+    tail = ''
     try:
-        p = subprocess.Popen(['bash', '-c', full], cwd=cwd, env=ENV, stdin=subprocess.PIPE, stdout=subprocess.PIPE,
+        p = subprocess.Popen(['bash', '-c', full], cwd=cwd, env=ENV, stdin=subprocess.PIPE, stdout=sink or subprocess.PIPE,
                              stderr=subprocess.STDOUT, text=True, start_new_session=True)
         try:
             out, _ = p.communicate(timeout=timeout)
@@ -347,13 +350,17 @@ def sh(cmd, cwd, timeout, log=None):
             except OSError:
                 pass
             out, _ = p.communicate()
-            out = (out or '') + '\n[runner] TIMEOUT after %ds\n' % timeout
+            tail = '\n[runner] TIMEOUT after %ds\n' % timeout
             rc = -9
     except OSError as e:
-        out, rc = '[runner] spawn failed: %s' % e, -1
+        out, rc, tail = '', -1, '[runner] spawn failed: %s' % e
     dt = time.time() - t0
-    if log:
-        open(log, 'w').write(out)
+    if sink:
+        sink.write(tail)
+        sink.close()
+        out = open(log, errors='replace').read()
+    else:
+        out = (out or '') + tail
     return rc, out, dt
 
 
